@@ -522,3 +522,16 @@ Qed.
 Lemma template_bodies_wl m v :
   wl HNone (call_body m v) = true /\ wl HNone (calls_body m) = true /\ wl HNone (reset_body m) = true.
 Proof. unfold call_body, calls_body, reset_body; simpl. rewrite !Nat.eqb_refl. auto. Qed.
+
+(* a closure that writes a captured variable and is run by two goroutines (testify runs RunFn outside
+   its mutex): location k is accessed without any lock - not well locked, not testify-local, and the
+   two invocations race *)
+Lemma shared_closure_races k :
+  wl HNone [WriteNil k] = false /\ wl HNone [Snap k] = false /\
+  testify_instr (WriteNil k) = false /\ testify_instr (Snap k) = false /\
+  race (init [[WriteNil k]; [WriteNil k]]) /\ race (init [[Snap k]; [WriteNil k]]).
+Proof.
+  repeat split; try reflexivity.
+  - exists 0, 1, (WriteNil k), (WriteNil k), k, true, true. repeat split; try reflexivity. discriminate.
+  - exists 0, 1, (Snap k), (WriteNil k), k, false, true. repeat split; try reflexivity. discriminate.
+Qed.
